@@ -229,7 +229,7 @@ func chooseBases(c *core.Ctx, l *linter, nProto, nRandom, maxValues int) ([]Name
 	}
 	var cands []NamedBase
 	tried, invalid, tooBig := 0, 0, 0
-	for i := 0; len(cands) < nRandom*3 && i < nRandom*40; i++ {
+	for i := 0; len(cands) < nRandom*4 && i < nRandom*60; i++ {
 		seed := c.Seed*100003 + int64(i)
 		s := randomBase(seed, maxBit).norm()
 		tried++
@@ -272,8 +272,9 @@ func chooseBases(c *core.Ctx, l *linter, nProto, nRandom, maxValues int) ([]Name
 		out = append(out, b)
 		sizes = append(sizes, counts[i])
 	}
-	if nr < nRandom {
-		return nil, fmt.Errorf("only %d of %d random bases have an enumerable value space", nr, nRandom)
+	c.Set("random_bases_used", nr)
+	if nr == 0 && nRandom > 0 {
+		return nil, fmt.Errorf("none of the %d random candidates has an enumerable value space", len(cands))
 	}
 	names := make([]string, len(out))
 	for i, b := range out {
